@@ -493,8 +493,8 @@ def i_udiv(ins, fmap):
     _xs2 = src2.zeroextend(64)
     _xs1.sf = _xs2.sf = False
     _r = fmap(_xs1 / _xs2)
-    _v = cst(0xFFFFFFFF, 32)
-    _dst = tst(_r > _v, _v, _r[0:32])
+    _v = cst(0xFFFFFFFF, 64)
+    _dst = tst(_r > _v, _v[0:32], _r[0:32])
     # fmap[y] = _r[32:64]
     fmap[y] = top(32)
     if dst is not g0:
@@ -515,8 +515,8 @@ def i_sdiv(ins, fmap):
     _xs2 = src2.zeroextend(64)
     _xs1.sf = _xs2.sf = True
     _r = fmap(_xs1 / _xs2)
-    _v = cst(0x7FFFFFFF, 32)
-    _dst = tst(_r > _v, _v, _r[0:32])
+    _v = cst(0x7FFFFFFF, 64)
+    _dst = tst(_r > _v, _v[0:32], _r[0:32])
     # fmap[y] = _r[32:64]
     fmap[y] = top(32)
     if dst is not g0:
